@@ -11,16 +11,13 @@ open Mutagen
 
 /-- two saves of the same tags through one `ASF` object with the default padding policy: the second
 save (which works on the object tree the first one left, not on a re-read file) writes the file the
-first one wrote, byte for byte -/
+first one wrote, byte for byte (the File Size field included: both saves write the same file length) -/
 theorem asf_save_twice_same_object (L : Asf.Layout) (h : L.OK) (tags : List Asf.Tag) (d : Asf.Dist)
     (hd : Asf.distribute tags = .ok d) (P : Asf.Payloads) (hP : Asf.Renders d P)
     (hf : L.Fits P (Asf.newPadding L P .default)) :
     ∃ out, Asf.saveTwice L.render tags .default tags .default = .ok (out, out) := by
-  refine ⟨(L.after P (Asf.newPadding L P .default)).render, ?_⟩
-  rw [Asf.saveTwice_layout L h tags d hd P hP .default .default hf]
-  have : (getPadding .default ((Asf.newPadding L P .default : Nat) : Int) L.rest.length).toNat = Asf.newPadding L P .default :=
-    Asf.default_again _ _
-  rw [this]
+  exact ⟨(L.after P (Asf.newPadding L P .default)).render,
+    Asf.saveTwice_layout L h tags d hd P hP .default .default hf _ (Asf.default_again _ _) hf⟩
 
 /-- … and the same through a reload: loading the saved file and saving the same tags again (default
 padding) leaves it byte-identical -/
@@ -28,19 +25,15 @@ theorem asf_save_reload_idempotent (L : Asf.Layout) (h : L.OK) (tags : List Asf.
     (hd : Asf.distribute tags = .ok d) (P : Asf.Payloads) (hP : Asf.Renders d P)
     (hf : L.Fits P (Asf.newPadding L P .default)) :
     ∃ out, Asf.save L.render tags .default = .ok out ∧ Asf.save out tags .default = .ok out := by
-  refine ⟨(L.after P (Asf.newPadding L P .default)).render, (Asf.save_layout L h tags d hd P hP .default hf.ext).2, ?_⟩
-  rw [Asf.save_after_save L h tags d hd P hP _ hf .default]
-  have : (getPadding .default ((Asf.newPadding L P .default : Nat) : Int) L.rest.length).toNat = Asf.newPadding L P .default :=
-    Asf.default_again _ _
-  rw [this]
+  exact ⟨(L.after P (Asf.newPadding L P .default)).render, (Asf.save_layout L h tags d hd P hP .default hf).2,
+    Asf.save_after_save L h tags d hd P hP _ hf .default _ (Asf.default_again _ _) hf⟩
 
 /-- whatever the first save's padding was: a second save whose callback returns the padding it is
 offered leaves the file byte-identical -/
 theorem asf_resave_keep_identical (L : Asf.Layout) (h : L.OK) (tags : List Asf.Tag) (d : Asf.Dist)
     (hd : Asf.distribute tags = .ok d) (P : Asf.Payloads) (hP : Asf.Renders d P) (p : Nat) (hf : L.Fits P p) :
     Asf.save (L.after P p).render tags (.callback fun offered _ => offered) = .ok (L.after P p).render := by
-  rw [Asf.save_after_save L h tags d hd P hP p hf]
-  simp [getPadding]
+  exact Asf.save_after_save L h tags d hd P hP p hf _ p (by simp [getPadding]) hf
 
 /-- "add missing objects" does nothing the second time -/
 theorem asf_add_missing_idempotent (top : List Asf.Item) : Asf.addMissingI (Asf.addMissingI top) = Asf.addMissingI top :=
